@@ -1,4 +1,5 @@
 import Driver.SimCmd
+import Driver.UpdCmd
 /-!
 # Line-protocol driver over the executable models
 
@@ -13,6 +14,7 @@ structure DState where
 def step (s : DState) (line : String) : DState × String :=
   match line.trimAscii.toString.splitOn " " with
   | "sim" :: args => let (st, out) := simStep' s.sim args; ({ s with sim := st }, out)
+  | "upd" :: args => (s, updStep args)
   | _ => (s, "bad-op")
 
 partial def loop (h : IO.FS.Stream) (out : IO.FS.Stream) (s : DState) : IO Unit := do
@@ -20,6 +22,7 @@ partial def loop (h : IO.FS.Stream) (out : IO.FS.Stream) (s : DState) : IO Unit 
   if line.isEmpty then return ()
   let (s', o) := step s line
   out.putStrLn o
+  out.flush
   loop h out s'
 
 def main : IO Unit := do
